@@ -10,8 +10,8 @@ const SPEC: Spec = Spec {
         "operand families: the complete small square, a structured family of large values (powers of two 2^i with i spanning several digits times odd parts with known common factors) and Dense(S5,2)^2",
         "refint gcd is trusted; cross-checked against Python math.gcd on a transcript slice",
     ],
-    bounds_quick: "G1 all (a,b) in [-300,300]^2; G2 T x T with T = {2^i*u : 14 shifts i up to 200, u in 9 odd parts} x 4 sign pairs; G3 Dense(S5,3) x Dense(S5,2) x 4 sign pairs",
-    bounds_thorough: "G1 [-1000,1000]^2; G2 with 22 shifts up to 320 and 9 odd parts; G3 Dense(S5,3)^2 x 4 sign pairs",
+    bounds_quick: "G1 all (a,b) in [-300,300]^2; G2 T x T with T = {2^i*u : 14 shifts i up to 200, u in 9 odd parts} x 4 sign pairs; G3 Dense(S5,3) x Dense(S5,2) x 4 sign pairs; G5 consecutive Fibonacci numbers F(k),F(k+1) for k in {100,1000,1500,3000} (plain and with a common factor) and 2^k-1 against 2^(k-1)+1",
+    bounds_thorough: "G1 [-1000,1000]^2; G2 with 22 shifts up to 320 and 9 odd parts; G3 Dense(S5,3)^2 x 4 sign pairs; G5 up to k=10000",
     hang_secs: 60,
     probes: None,
     max_workers: 16,
@@ -264,6 +264,37 @@ fn body(ctx: &mut Ctx) {
                 }
                 ctx.sample(|| format!("planted common factor g*2^{} ({} digits) times dense LCG cofactors up to {} digits", k, lg, lmax));
             }
+        }
+    }
+    // G5: operand pairs that keep the gcd loops running for thousands of iterations
+    if ctx.space("G5") {
+        let ks: Vec<usize> = tier.pick(vec![100, 1000, 1500, 3000], vec![100, 1000, 1500, 3000, 5000, 10000]);
+        let mut fibs: Vec<(usize, Nat, Nat)> = Vec::new();
+        {
+            let (mut a, mut b) = (Nat::zero(), Nat::one());
+            let kmax = *ks.iter().max().unwrap();
+            for i in 1..=kmax {
+                let c = a.add(&b);
+                a = b;
+                b = c;
+                if ks.contains(&i) {
+                    fibs.push((i, a.clone(), b.clone())); // F(i), F(i+1)
+                }
+            }
+        }
+        let g = Nat::from_digits(&[0x1_0000_0001, 3]).shl(70);
+        for (o, (k, f0, f1)) in fibs.iter().enumerate() {
+            if !ctx.mine(o as u64) {
+                continue;
+            }
+            let ones = Nat::one().shl(*k as u64).sub(&Nat::one()).unwrap();
+            let half = Nat::one().shl(*k as u64 - 1).add(&Nat::one());
+            for (a, b) in [(f0.clone(), f1.clone()), (f1.clone(), f0.clone()), (g.mul(f0), g.mul(f1)), (ones.clone(), half.clone()), (g.mul(&half), ones.shl(3))] {
+                for (sa, sb) in [(false, false), (true, false), (false, true), (true, true)] {
+                    pair(ctx, &Int::new(sa, a.clone()), &Int::new(sb, b.clone()), None);
+                }
+            }
+            ctx.sample(|| format!("consecutive Fibonacci numbers F({0}), F({0}+1) ({1} bits), scaled by a common factor, and 2^{0}-1 against 2^({0}-1)+1: 4 sign pairs", k, f1.bits()));
         }
     }
     if ctx.space("G3") {
